@@ -42,7 +42,7 @@ def native_script(mode, defp, period_enc):
 
 
 class _Request(Contract):
-    prop = ("C03",)
+    prop = ("C03", "C02")
     top_level = True
     cases = tuple((d, u) for d in UNITS for u in UNITS)
     mode = None
